@@ -97,6 +97,12 @@ add("C04", "fixed", "output-differs:tablerow", "tablerow and ifchanged nodes ser
     [c04("{% tablerow i in (1..3) cols: 2 %}{{ i }}{% endtablerow %}"), c04("{% ifchanged %}{{ a }}{% endifchanged %}")], "1d52d7e")
 add("C04", "fixed", "output-differs:cycle", "literal cycle group name serialised as a variable", [c04("{% cycle 'g': 1, 2 %}{% cycle 'g': 1, 2 %}{% cycle g: 1, 2 %}", [{"g": "other"}, {}])], "6688234")
 
+# ----------------------------------------------------------------------------- C12 fixed
+add("C12", "fixed", "contains:list~bool", "[1] contains true and (1..2) contains true were true (Python True == 1)",
+    [{"kind": "cmp", "ctx": "if", "op": "contains", "a": {"t": "val", "v": [1]}, "b": {"t": "val", "v": True}},
+     {"kind": "cmp", "ctx": "unless", "op": "contains", "a": {"t": "val", "v": [True]}, "b": {"t": "val", "v": 1}},
+     {"kind": "cmp", "ctx": "ternary", "op": "contains", "a": {"t": "val", "v": V.enc(range(1, 3))}, "b": {"t": "val", "v": True}, "alit": True}], "2bb43a0")
+
 # ----------------------------------------------------------------------------- C13 fixed
 def c13(lp, data, ss=False):
     return {"loops": [lp], "data": V.enc(data), "ss": ss}
